@@ -1,5 +1,6 @@
 SPECIFICATION Spec
 CONSTANTS
+  Emit = FALSE
   Lits = {"color", "COLOR", "c~olor", "left", "lef~t", "top"}
   Values = {"red", "blue", "1px"}
   Prios = {"", "!important", "!IMPORTANT"}
